@@ -2,6 +2,8 @@
 Theorems: props/Properties_C14.v (selection model).  Tie: real create_spend_transaction / sign_transaction on generated
 ledgers against the extracted model (selection, change, used-set), and against the node's own transaction validation.
 Search oracle: the clauses of the property on the returned transaction and on the wallet's record of used outputs."""
+import contextlib
+import io
 import json
 
 import chaingen
@@ -274,6 +276,100 @@ def run(tier, seed):
                     if 'Insufficient' in str(e):
                         ck.violation('affordable-spend-refused-after-failed-attempt', 'after a spend failed while signing, a spend '
                                      'that the usable key alone can pay is refused with insufficient funds', rp)
+    # ---- a key generated AFTER the wallet was first used receives funds: they are spendable
+    for trial in range(2 if tier == 'quick' else 8):
+        with chaingen.Env(period=50) as env:
+            nodes, cs = build_ledger(env, keys, rng, [(0, 10), (1, 100), (0, 7)])
+            tg = build_ledger.tg
+            head = nodes[-1]
+            k0 = keys.pks[0]
+            wallet = Wallet({k0: keys.by_pk[k0].to_string()}, [], {k0: 'a'})
+            if trial % 2 == 0:
+                wallet.generate_keys(2)
+            try:
+                create_spend_transaction(wallet, cs, 3, 0, SECP256k1PublicKey(keys.pks[5]), SECP256k1PublicKey(k0))
+            except Exception:
+                pass
+            wallet.generate_key()
+            new_pk = list(wallet.keypairs.keys())[-1]
+            src = [(r_, vo) for r_, vo in head.utxo.items() if vo[1] == keys.pks[1]]
+            if not src:
+                continue
+            pay = chaingen.signed_tx(keys, head.utxo, [src[0][0]], [(src[0][1][0], new_pk)])
+            nb = tg.extend(head, txs=[pay], fees=0, miner=keys.pks[5])
+            cs2 = chaingen.impl_state_from(tg.nodes)
+            need = src[0][1][0] - 1
+            ck.case(('late-key', trial), kind='funds-on-key-generated-after-first-use')
+            try:
+                tx = create_spend_transaction(wallet, cs2, need, 0, SECP256k1PublicKey(keys.pks[5]), SECP256k1PublicKey(k0))
+            except Exception as e:
+                ck.violation('affordable-spend-refused', 'funds paid to a key the wallet generated after it had already built a spend '
+                             'are not spendable (%s)' % e, {'wallet_shape': 'key generated after first spend', 'amount': need})
+    # ---- the send script: the recipient is paid the amount that was typed, in the denomination that was typed
+    try:
+        import sys
+        from skepticoin.scripts import send as S
+        from skepticoin.params import SASHIMI_PER_COIN
+        from skepticoin.humans import human
+        with chaingen.Env(period=50) as env:
+            nodes, cs = build_ledger(env, keys, rng, [(0, 5 * 10 ** 8), (1, 4 * 10 ** 8)])
+            k0, k1 = keys.pks[0], keys.pks[1]
+
+            class Stop(BaseException):
+                pass
+            for amount, denom in ((250, 'sashimi'), (1, 'sashimi'), (3, 'skepticoin'), (7, 'sashimi')):
+                wallet = Wallet({k0: keys.by_pk[k0].to_string(), k1: keys.by_pk[k1].to_string()}, [k1], {k0: 'a'})
+                sent = []
+
+                class NM:
+                    def broadcast_transaction(self, t):
+                        sent.append(t)
+                        raise Stop()
+
+                class LPx:
+                    network_manager = NM()
+
+                class Th:
+                    local_peer = LPx()
+
+                    def stop(self):
+                        pass
+
+                    def join(self):
+                        pass
+                saved = {}
+                for name, val in (('check_chain_dir', lambda: None), ('read_chain_from_disk', lambda: cs),
+                                  ('open_or_init_wallet', lambda: wallet), ('start_networking_peer_in_background', lambda a_, c_: Th()),
+                                  ('wait_for_fresh_chain', lambda *a_, **k_: None), ('save_wallet', lambda w_: None)):
+                    if hasattr(S, name):
+                        saved[name] = getattr(S, name)
+                        setattr(S, name, val)
+                argv = sys.argv
+                sys.argv = ['skepticoin-send', str(amount), denom, 'SKE' + human(keys.pks[5]) + 'PTI']
+                try:
+                    with contextlib.redirect_stdout(io.StringIO()):
+                        try:
+                            S.main()
+                        except Stop:
+                            pass
+                        except SystemExit:
+                            pass
+                finally:
+                    sys.argv = argv
+                    for name, val in saved.items():
+                        setattr(S, name, val)
+                want = amount * (SASHIMI_PER_COIN if denom == 'skepticoin' else 1)
+                ck.case(('send-script', amount, denom), kind='send-script/%s' % denom)
+                if not sent:
+                    ck.disagree('send script did not broadcast anything for %d %s' % (amount, denom), {})
+                else:
+                    tv = spec.TxView(sent[0])
+                    if not tv.outputs or tv.outputs[0] != (want, keys.pks[5]):
+                        ck.violation('recipient-amount', 'skepticoin-send %d %s pays the recipient %s sashimi (expected %d)'
+                                     % (amount, denom, tv.outputs[0][0] if tv.outputs else None, want), {'script': 'send', 'amount': amount, 'denomination': denom})
+    except Exception as e:
+        import traceback
+        ck.disagree('send-script probe raised %r' % (e,), {'trace': traceback.format_exc()[-500:]})
     # ---- the known finding: more inputs than fit in one transaction
     with chaingen.Env(period=50) as env:
         tg = chaingen.TreeGen(env, keys, rng)
